@@ -270,3 +270,70 @@ _deductive('C10',
             'filter comprehension = strictly increasing index map onto exactly the positions that pass the filter (engine model, DESIGN 3.2)',
             'BufrSection abstracted to its ordered parameter list; SectionParameter.value of the data section is a TemplateData object'],
            ['subset_indices is a non-empty list of ints (as in the quantifier); a set / tuple argument is not covered by the contract'])
+
+CODEC_TRUST = [L['L1'], L['L4'], L['L6'], L['L7'], L['pow2'], L['term'],
+               'lists of objects hold no None; the value lists of the subsets are pairwise distinct objects (CoderState.__init__, proved)']
+
+_deductive('C03',
+           'Proved for all inputs: Encoder.process_numeric_uncompressed writes exactly one field of nbits bits holding round(value * 10**scale) - reference '
+           '(all ones for None) and hands that integer to write_uint UNMODIFIED -- no modulo, no clamp on any path -- and write_uint refuses (raises, '
+           'appends nothing) every integer outside 0 .. 2**nbits - 1 (must-raise clauses); Decoder.process_numeric_uncompressed returns '
+           '(raw + reference) / 10**scale, None exactly for all ones of a width above 1; Encoder.process_numeric_compressed range-checks the minimum '
+           'the same way. Lemmas over these contracts (reals): half-unit bound |decode(encode(v)) - v| <= 1 / (2 * 10**scale); a value that came from a '
+           'decoder re-encodes to the same raw (field-wise fixpoint); a raw outside the field meets the refusal condition. Bounded: IEEE doubles on '
+           'every numeric Table B element, message-level fixpoints on corpus and generated messages, flat JSON carrying the values unchanged.',
+           'Trusted: float *, / and 10**s are uninterpreted in the code obligations and the lemmas are over the reals (L4) -- IEEE rounding is covered '
+           'by the bounded layer only; bitstring model L7. Not under contract: renderer.FlatJsonRenderer, utils.EntityEncoder, message-level fixpoint '
+           '(bounded only).',
+           {'pybufrkit.encoder.': 'C03', 'pybufrkit.decoder.': 'C03', 'pybufrkit.bitops.': 'C03'},
+           CODEC_TRUST,
+           ['machine floats treated as reals in the three quantisation lemmas (bounded check in doubles stands beside them)',
+            'flat JSON rendering and the message-level decode / encode fixpoint are checked by the bounded layer only'])
+
+_deductive('C05',
+           'Proved for all inputs (any number of subsets, any width 1..64): the three decoder column readers (numeric, code / flag, string) return per '
+           'subset exactly the FM-94 column value -- missing minimum => all missing; width 0 => every subset the minimum; an all-ones difference => '
+           'missing (this includes 1-bit differences); else minimum + difference -- for EVERY difference width the stream declares, not only the '
+           'encoder\'s; the two encoder column writers (numeric, code / flag) emit minimum, 6-bit width and differences with width 0 exactly when all '
+           'subsets agree and an all-ones difference exactly for missing entries (nbits_for_uint keeps real differences below all ones; minmax is the '
+           'minimum / maximum of the non-missing entries); lemma column_inverse: decoder rule applied to fields satisfying the encoder postcondition '
+           'gives back the column, lemma any_legal_width: the same for every width that holds max - min below all ones; CoderState.__init__ gives '
+           'compressed data one shared descriptor list / link map; every column primitive appends the same descriptor object exactly once and touches '
+           'no register. Bounded: exhaustive small columns, string columns written by the encoder, compressed vs uncompressed whole messages.',
+           'Trusted: bitstring model L7, list model, finite 2**n table. Not under contract yet: Encoder.process_string_compressed (bounded only); the '
+           'induction from columns to whole messages (same descriptor trace in both modes) is argued in DESIGN C05 and enumerated by the bounded layer.',
+           {'pybufrkit.encoder.': 'C05', 'pybufrkit.decoder.': 'C05', 'pybufrkit.coder.': 'C05'},
+           CODEC_TRUST,
+           ['Encoder.process_string_compressed is bounded only', 'whole-message mode independence (labels, links) is bounded only'])
+
+_deductive('C04',
+           'Proved for all inputs and every section layout satisfying the facts established from the definition files (ground obligations, re-read '
+           'every run): Decoder.process_section returns having consumed exactly 8 * section_length bits whenever the section declares a length (surplus '
+           'octets skipped as one read, a section declared shorter than its content refused with PyBufrKitError), accepts no parameter whose value '
+           'differs from its expected value (signatures), and enters the template data iff the section has it; '
+           'Decoder.process_unexpanded_descriptors reads exactly (declared length - octets read) // 2 descriptors of 2 + 6 + 8 bits; the bit-level '
+           'pieces used for framing: set_uint overwrites exactly the addressed bits and keeps the stream length, skip / write_bin append exactly '
+           'the zero bits asked for, read_bin consumes exactly its width, to_bytes is the whole stream. Bounded: encoder-side framing (padding, '
+           'even-octet rule, length back-patch, honour mode) and whole-message extents on the full residue grid.',
+           'Trusted: bitstring model L7; section layouts = definition files (turned into ground facts each run). Not under contract yet: '
+           'Encoder.process_section / Encoder.process (bounded only).',
+           {'pybufrkit.decoder.': 'C04', 'pybufrkit.bitops.': 'C04'},
+           [L['L1'], L['L5'], L['L6'], L['L7'], L['pow2'], L['term'],
+            'BufrSection abstracted to its ordered parameter list; BufrMessage proxies read / write the attribute _<name> (ground obligation)',
+            'interface contract of the template walk inside Decoder.process_template_data (Coder.process_template: assumed)'],
+           ['encoder-side framing is checked by the bounded layer only'])
+
+PROPS['C12']['level'] = 'proof'
+_deductive('C12',
+           'Proved for all inputs: every failure of a bit-stream read -- past the end, non-positive width, whatever class the bitstring library raises '
+           '(its own Error or a plain ValueError) -- leaves BitStringBitReader as BitReadError, a PyBufrKitError, and no other class (raises clauses '
+           'of _bit_stream_read, read_uint, read_bool, read_bytes, read_bin); Decoder.process_section refuses a parameter whose value differs from '
+           'its expected value (damaged signatures) and a section declared shorter than its content with PyBufrKitError, and no other exception '
+           'class escapes from a section without template data. Fault enumeration (bounded): every truncation point of generated / sample messages; '
+           'streams of 2-3 messages with every damage kind of the statement, with and without continue_on_error; CLI prints no traceback.',
+           'Trusted: bitstring model L7 (which calls raise which class: validated by the conformance run). Not under contract yet: '
+           'generate_bufr_message (skip-and-continue), Coder.process_members (unknown descriptor), __init__.main; fault enumeration only.',
+           {'pybufrkit.decoder.': 'C12', 'pybufrkit.bitops.': 'C12'},
+           [L['L1'], L['L5'], L['L6'], L['L7'], L['pow2'], L['term'],
+            'BufrSection abstracted to its ordered parameter list; section layouts = definition files (ground facts)'],
+           ['skip-and-continue, unknown-descriptor refusal and the prefix clause are checked by fault enumeration only'])
